@@ -28,6 +28,8 @@ def make_script(rng):
             ops.append(("ctrl", i, W.cmd("CMD SETFH %d 0 %d %d" % (rng.choice([0, 5]), rng.choice(W.FREQS), rng.choice(W.FREQS)))))
         else:
             ops.append(("data", i, W.tx_datagram(0, rng.below(100), 0, 0, [0] * 148)))
+        if rng.chance(1, 8):
+            ops.append(("ctrl", rng.below(n), W.rejected_cmd(rng)))      # must leave power, hopping, queue and links alone
         if rng.chance(1, 3):
             ops.append(("state",))
     ops.append(("state",))
@@ -64,11 +66,11 @@ def oracle(ctx, script, real):
                     ref[j].update(run=False, fh=False, q=0)
                 if cfg[i]["clock"] and i in links:
                     links.remove(i)
-            elif verb == "RXTUNE":
+            elif verb == "RXTUNE" and len(toks) == 2 and status == 0:
                 ref[i]["rx"] = True
-            elif verb == "TXTUNE":
+            elif verb == "TXTUNE" and len(toks) == 2 and status == 0:
                 ref[i]["tx"] = True
-            elif verb == "SETFH":
+            elif verb == "SETFH" and len(toks) >= 5 and status == 0:
                 ref[i]["fh"] = True
             if cfg[i]["clock"] and verb in ("POWERON", "POWEROFF") and (verb == "POWEROFF" or status == 0):
                 gen_running = len(links) > 0
